@@ -3249,6 +3249,7 @@ class PyCdlib:
                 raise pycdlibexception.PyCdlibInvalidInput('Can only specify a UDF path for a UDF ISO')
 
             # UDF new path.
+            self._check_new_joliet_udf_paths(None, udf_new_path.decode('utf-8'))
             (udf_name, udf_parent) = self._udf_name_and_parent_from_path(udf_new_path)
 
             file_ident = udfmod.UDFFileIdentifierDescriptor()
@@ -3313,6 +3314,14 @@ class PyCdlib:
             (udf_name, udf_parent) = self._udf_name_and_parent_from_path(utils.normpath(udf_path))
             if udf_parent is None or not udf_parent.is_dir():
                 raise pycdlibexception.PyCdlibInvalidInput('Could not find path')
+            # The length of a UDF File Identifier is stored in a single byte,
+            # and includes one byte for the compression ID.
+            try:
+                udf_name_len = len(udf_name.decode('utf-8').encode('latin-1'))
+            except UnicodeEncodeError:
+                udf_name_len = len(udf_name.decode('utf-8').encode('utf-16_be'))
+            if udf_name_len + 1 > 255:
+                raise pycdlibexception.PyCdlibInvalidInput('UDF names can be a maximum of 254 bytes (127 characters outside of Latin-1)')
             try:
                 udf_parent.find_file_ident_desc_by_name(udf_name)
             except pycdlibexception.PyCdlibInvalidInput:
